@@ -70,6 +70,39 @@ def admissible(task, entry, base):
     return True
 
 
+# documented, in-range, non-default parameter settings tried on the valid stream (a valid input must be scored under
+# every admissible setting, not only the defaults)
+VALID_KW = {
+    ("segment", "detection"): [{"trim": True}, {"trim": True, "window": 3.0}, {"beta": 2.0}],
+    ("segment", "deviation"): [{"trim": True}],
+    ("segment", "nce"): [{"marginal": True}, {"beta": 0.5}],
+    ("segment", "pairwise"): [{"frame_size": 0.5}, {"beta": 2.0}],
+    ("segment", "evaluate"): [{"trim": True}, {"frame_size": 0.5}],
+    ("onset", "f_measure"): [{"window": 0.0}, {"window": 1.0}],
+    ("beat", "f_measure"): [{"f_measure_threshold": 0.0}],
+    ("beat", "information_gain"): [{"bins": 11}],
+    ("beat", "evaluate"): [{"min_beat_time": 0.0}, {"bins": 11}],
+    ("transcription", "precision_recall_f1_overlap"): [{"strict": True}, {"offset_ratio": None}, {"beta": 2.0}],
+    ("transcription", "onset_precision_recall_f1"): [{"strict": True}],
+    ("transcription", "offset_precision_recall_f1"): [{"strict": True}, {"offset_min_tolerance": 0.0}],
+    ("transcription", "evaluate"): [{"strict": True}, {"offset_ratio": None}],
+    ("transcription_velocity", "evaluate"): [{"strict": True}, {"velocity_tolerance": 0.5}],
+    ("multipitch", "evaluate"): [{"window": 1.0}],
+    ("melody", "evaluate"): [{"cent_tolerance": 25}, {"hop": 0.25}],
+    ("tempo", "detection"): [{"tol": 0.0}, {"tol": 1.0}],
+    ("alignment", "percentage_correct"): [{"window": 0.0}],
+    ("alignment", "percentage_correct_segments"): [{"duration": 100.0}],
+    ("pattern", "occurrence_FPR"): [{"thres": 0.5}],
+    ("pattern", "first_n_three_layer_P"): [{"n": 1}],
+    ("pattern", "evaluate"): [{"n": 1}],
+    ("hierarchy", "tmeasure"): [{"transitive": True}, {"window": 2.0, "frame_size": 0.5}, {"frame_size": 1.0}],
+    ("hierarchy", "lmeasure"): [{"frame_size": 1.0}, {"beta": 2.0}],
+    ("hierarchy", "evaluate"): [{"frame_size": 1.0}],
+    ("chord", "evaluate"): [],
+    ("key", "evaluate"): [],
+}
+
+
 def gen_valid(task):
     def g(rng, tier, shard, nshards, boost):
         n = (40 if tier == "quick" else 800) * boost
@@ -80,6 +113,9 @@ def gen_valid(task):
             for e in entries:
                 if admissible(task, e, base):
                     yield {"task": task, "entry": e, "fault": None, "base": base}
+                    for kw in VALID_KW.get((task, e), []):
+                        if rng.random() < 0.5:
+                            yield {"task": task, "entry": e, "fault": None, "base": base, "kw": kw}
     return g
 
 
